@@ -94,7 +94,7 @@ func (g *tmplGen) condValue() string {
 	}
 }
 
-var rangeHeaders = []string{"xs", "i : xs", "i, x : xs", ", x : xs", "_, x : xs", "i, x : ident(xs)", "i, x : ns", "k, v : m1", "i, b : word", "i,x:xs", " i , x : xs ", "i, x : emp", "i, x : st.Tags", "i, i : xs", "i, x : xs", "i, x : xs"}
+var rangeHeaders = []string{": xs", " :xs", "xs", "i : xs", "i, x : xs", ", x : xs", "_, x : xs", "i, x : ident(xs)", "i, x : ns", "k, v : m1", "i, b : word", "i,x:xs", " i , x : xs ", "i, x : emp", "i, x : st.Tags", "i, i : xs", "i, x : xs", "i, x : xs"}
 var badRangeHeaders = []string{"x : num", "i, x : zz", "x : xs[1:]", "i, x : nilv", "i, x : fail()", ""}
 
 func (g *tmplGen) staticAttr(used map[string]bool) TAttr {
